@@ -138,6 +138,10 @@ HexahedralMeshTopologyKernel::add_cell(std::vector<HalfFaceHandle> _halffaces, b
     HalfFaceHandle cur_hf = ordered_halffaces[0];
     HalfEdgeHandle cur_he = *(TopologyKernel::halfface(cur_hf).halfedges().begin());
     cur_hf = get_adjacent_halfface(cur_hf, cur_he, _halffaces);
+    if(cur_hf == TopologyKernel::InvalidHalfFaceHandle) {
+        // The given halffaces do not form a hexahedron
+        return TopologyKernel::InvalidCellHandle;
+    }
     cur_he = TopologyKernel::opposite_halfedge_handle(cur_he);
     cur_he = TopologyKernel::next_halfedge_in_halfface(cur_he, cur_hf);
     cur_he = TopologyKernel::next_halfedge_in_halfface(cur_he, cur_hf);
@@ -150,6 +154,13 @@ HexahedralMeshTopologyKernel::add_cell(std::vector<HalfFaceHandle> _halffaces, b
         std::cerr << "The current halfface is invalid!" << std::endl;
 #endif
         return TopologyKernel::InvalidCellHandle;
+    }
+
+    for(const auto &hfh: ordered_halffaces) {
+        if(!hfh.is_valid()) {
+            // Not every side of the hexahedron could be found
+            return TopologyKernel::InvalidCellHandle;
+        }
     }
 
     return TopologyKernel::add_cell(std::move(ordered_halffaces), _topologyCheck);
